@@ -24,7 +24,7 @@ import sympy as sp
 
 from ..core import norm, calls_in, kwarg, AnalysisError, assigns_to, cmp_canon
 from ..flow import Reaching
-from ..symx import SymEval, Path, PyStub, Opaque, WouldRaise
+from ..symx import SymEval, Path, PyStub, SymObj, Opaque, WouldRaise, module_aliases
 
 NL = 'atomman/core/nlist.pyx'
 NLP = 'atomman/core/NeighborList.py'
@@ -416,21 +416,75 @@ def neighborlist(ctx):
     ctx.ob('NEIGHBORLIST', loc + '.__getitem__', 'an atom\'s list is the first coord[key] entries of its row', len(r) == 1 and norm(r[0].value).replace(' ', '') in ('self.__neighbors[key,:self.coord[key]]', 'self.__neighbors[key,:self.__coord[key]]'), node=gi)
     ln = ctx.fn(NLP, 'NeighborList.__len__')
     ctx.ob('NEIGHBORLIST', loc + '.__len__', 'length is the number of atoms', 'len(self.__coord)' in norm(ln), node=ln)
+    # dump and load: the writer's text is parsed by the analyser, and fed back to the reader
+    import numpy as np
     d = ctx.fn(NLP, 'NeighborList.dump')
-    writes = [norm(c.args[0]) for c in calls_in(d) if norm(c.func) == 'fp.write' and c.args]
-    ok = "'%i' % i" in writes and "' %i' % j" in writes and "'\\n'" in writes
-    loops = [l for l in ast.walk(d) if isinstance(l, ast.For)]
-    ok = ok and any(norm(l.iter) == 'range(len(self))' for l in loops) and any(norm(l.iter) == 'self[i]' for l in loops)
-    ctx.ob('NEIGHBORLIST', loc + '.dump', 'one line per atom: the index, then exactly the atom\'s neighbour ids', ok, str(writes), node=d)
-    com = [w for w in writes if w.startswith("'#")]
     ld = ctx.fn(NLP, 'NeighborList.load')
-    t = norm(ld)
-    ok = 'i = int(terms[0])' in t and 'self.__coord[i] = len(terms) - 1' in t and 'self.__neighbors[i, j - 1] = terms[j]' in t and 'range(1, len(terms))' in t
-    ctx.ob('NEIGHBORLIST', loc + '.load', 'the reader takes the first token as the atom index, the count as tokens-1 and the rest as neighbours in order', ok, node=ld)
-    ok = "terms[0][0] != '#'" in t and len(com) >= 1
-    ctx.ob('NEIGHBORLIST', loc + '.load', 'comment lines written by dump are skipped by load', ok, node=ld)
-    ok = 'np.empty((natoms, nterms + 1), dtype=int)' in t and 'self.__coord = self.__nlist[:, 0]' in t and 'self.__neighbors = self.__nlist[:, 1:]' in t and 'self.__coord[:] = 0' in t
-    ctx.ob('NEIGHBORLIST', loc + '.load', 'the loaded table has the same layout (count column + widest list) with counts initialised', ok, node=ld)
+    cls = ctx.fn(NLP, 'NeighborList')
+    I = sp.Integer
+    for tag, table in (('uneven lists, an atom without neighbours, multi-digit ids', [[2, 1, 12, -7], [0, -7, -7, -7], [3, 0, 2, 11], [1, 104, -7, -7]]), ('single atom', [[0, -7]]), ('full rows', [[2, 1, 2], [2, 0, 2], [2, 0, 1]])):
+        tab = np.array([[I(v) for v in row] for row in table], dtype=object)
+        obj = SymObj(cls, {'_NeighborList__nlist': tab, '_NeighborList__coord': tab[:, 0], '_NeighborList__neighbors': tab[:, 1:]}, 'self')
+        written = []
+
+        class Out(PyStub):
+            def __enter__(self):
+                return self
+
+            def write(self, t):
+                if not isinstance(t, str):
+                    raise Opaque('text written is not concrete: %r' % (t,))
+                written.append(t)
+        ev = SymEval(module_aliases(ctx.mod(NLP)))
+        ev.globals = {'open': lambda f, mode='r', **k: Out()}
+        try:
+            ev.run_fn(d, [obj, 'nlist.dat'], {})
+        except (Opaque, WouldRaise) as e:
+            raise AnalysisError('NeighborList.dump (%s): %s' % (tag, e))
+        text = ''.join(written)
+        rows = [ln.split() for ln in text.split('\n') if ln.strip() and not ln.lstrip().startswith('#')]
+        want = [[i] + [int(v) for v in row[1:1 + row[0]]] for i, row in enumerate(table)]
+        ok = all(all(tok.lstrip('-').isdigit() for tok in r) for r in rows) and [[int(t) for t in r] for r in rows] == want and text.endswith('\n')
+        ctx.ob('NEIGHBORLIST', loc + '.dump', '%s: one line per atom in order: the atom index, then exactly that atom\'s neighbour ids (none of the unused slots)' % tag, ok, repr(text[-120:]), node=d, key='dump ' + tag)
+        # read it back
+        lines = [ln + '\n' for ln in text.split('\n')[:-1]]
+
+        class Fin(PyStub):
+            def __enter__(self):
+                return self
+
+            def __iter__(self):
+                return iter([_Bytes(x) for x in lines])
+
+            def seek(self, k):
+                return None
+
+        class _Bytes(PyStub):
+            def __init__(self, t):
+                self.t = t
+
+            def decode(self, enc='utf-8'):
+                return self.t
+        obj2 = SymObj(cls, {}, 'self')
+        ev = SymEval(module_aliases(ctx.mod(NLP)))
+        ev.globals = {'uber_open_rmode': lambda m: Fin()}
+        ev.np_override = {'numpy.empty': lambda shape, **k: _unspec2(shape)}
+        try:
+            ev.run_fn(ld, [obj2, 'nlist.dat'], {})
+            co, nb = obj2.attrs.get('_NeighborList__coord'), obj2.attrs.get('_NeighborList__neighbors')
+            got = [[int(co[i])] + [int(v) for v in nb[i, :int(co[i])]] for i in range(len(co))] if co is not None and nb is not None else None
+            okl = got == [[row[0]] + [int(v) for v in row[1:1 + row[0]]] for row in table]
+            det = str(got)
+        except (Opaque, WouldRaise, TypeError, ValueError, IndexError) as e:
+            okl, det = False, 'load of the dumped text fails: %s' % e
+        ctx.ob('NEIGHBORLIST', loc + '.load', '%s: reading the dumped text back gives every atom the same count and the same neighbour ids in the same order (comment lines skipped)' % tag, okl, det[:200], node=ld, key='load ' + tag)
+
+
+def _unspec2(shape):
+    import numpy as np
+    out = np.empty(tuple(int(x) for x in shape), dtype=object)
+    out[...] = sp.Integer(-7)
+    return out
 
 
 def run(ctx):
